@@ -263,21 +263,33 @@ class Env(S.Context):
                     refs(g, acc)
             return acc
 
-        def walk(cname, m):
+        cand = {}          # class -> list of (via explicit sub-mapper?, renames) over every path that reaches it
+
+        def walk(cname, m, depth=0):
+            if depth > 6:
+                return
             for fd in self.all_fields(cname):
                 sub = (m or {}).get(fd["name"] + "._mapper")
                 for rn in sorted(refs(fd["field"], set())):
-                    if rn in self.classes and rn not in out:
-                        # without a '<field>._mapper' entry (e.g. under a Map) the nested instance is serialized with
-                        # its own aggregated mapper, which in turn propagates to the classes nested in it
+                    if rn in self.classes:
+                        # without a '<field>._mapper' entry (e.g. under a Map or AnyOf) the nested instance is serialized
+                        # with its own aggregated mapper, which in turn propagates to the classes nested in it
                         v = sub if isinstance(sub, dict) else (aggregate_serialization_mappers(self.classes[rn], None) or {})
                         fn = set(self.classes[rn].get_all_fields_by_name().keys())
-                        out[rn] = [(a, b) for a, b in v.items() if a in fn and isinstance(b, str) and b != a]
-                        walk(rn, v)
+                        ren = sorted((a, b) for a, b in v.items() if a in fn and isinstance(b, str) and b != a)
+                        entry = (isinstance(sub, dict), ren)
+                        if entry not in cand.setdefault(rn, []):
+                            cand[rn].append(entry)
+                            walk(rn, v, depth + 1)
 
         # the compact form of a field wrapper serializes the wrapped value without the wrapper's mapper
         walk(self.top, {} if self.wrapper_form(self.top)
              else (aggregate_serialization_mappers(self.classes[self.top], None) or {}))
+        for rn, entries in cand.items():
+            entries.sort(key=lambda e: not e[0])             # paths with an explicit sub-mapper first
+            out[rn] = entries[0][1]
+        # the renames of a class reached through paths with different mappers depend on the path: not modelled per class
+        self.path_dependent = {rn for rn, entries in cand.items() if len({tuple(e[1]) for e in entries}) > 1}
         return out
 
     def wrapper_form(self, name):
@@ -1758,7 +1770,7 @@ def run_extras(rep):
 
 def run(rep, tier):
     rnd = random.Random(core.seed() * 1000003 + 8)
-    n_env = 170 if tier == "quick" else 1400
+    n_env = 320 if tier == "quick" else 1400
     import time
     t0 = time.time()
     timing = {}
@@ -1970,6 +1982,10 @@ def run(rep, tier):
                 if id(inst) in seen_inst:         # the same instance under a later export of the same class
                     continue
                 seen_inst.add(id(inst))
+                env.effective_renames()
+                if any(('"%s"' % n) in json.dumps(kw) for n in env.path_dependent):
+                    rep.stat("corr:serializer", "skipped:path-dependent-renames")
+                    continue
                 try:
                     st = reify_stored(inst)
                     rtexts.append((vi, kw, j, rcase_text(env, st[2], j)))
